@@ -49,7 +49,21 @@ static int should_fail (const char *kind, int is_file_mmap, int is_anon)
   return f;
 }
 
-int __wrap_mkstemp (char *t) { if (should_fail ("mkstemp", 0, 0)) { errno = EMFILE; return -1; } return __real_mkstemp (t); }
+/* With ORC_CODE=debug the library keeps its code files instead of unlinking them, and a failure plan pushes it down its list of
+ * directories to /tmp, which no environment variable redirects: the files this process created are removed when it exits. */
+static char *kept_files[4096]; static int n_kept_files;
+static void remove_kept_files (void) { while (n_kept_files) { unlink (kept_files[--n_kept_files]); } }
+int __wrap_mkstemp (char *t)
+{
+  int fd;
+  if (should_fail ("mkstemp", 0, 0)) { errno = EMFILE; return -1; }
+  fd = __real_mkstemp (t);
+  if (fd >= 0 && n_kept_files < 4096) {
+    const char *oc = getenv ("ORC_CODE");
+    if (oc && strstr (oc, "debug")) { if (!n_kept_files) atexit (remove_kept_files); kept_files[n_kept_files++] = strdup (t); }
+  }
+  return fd;
+}
 int __wrap_ftruncate (int fd, off_t len) { if (should_fail ("ftruncate", 0, 0)) { errno = ENOSPC; return -1; } return __real_ftruncate (fd, len); }
 void *__wrap_mmap (void *a, size_t l, int p, int f, int fd, off_t o)
 {
